@@ -1422,7 +1422,7 @@ func oversizeGuard(c *Ctx, rule string, fn *ssa.Function, enqueue ssa.Instructio
 // finishCommitRequests before the next batch is fetched.
 func failedWriteNoEffect(c *Ctx, rule string) {
 	c.Rule(rule, "DB.commitWorker: the failure edge of a wal.Sync that follows applyRequests in the same iteration does not reach finishCommitRequests (the entries are already visible in the memtable; reporting the sync failure as the write's error makes a failed write take effect)")
-	fn := c.Fn("", "DB.commitWorker")
+	fn := commitWorkerBody(c)
 	if fn == nil {
 		return
 	}
@@ -1443,7 +1443,8 @@ func failedWriteNoEffect(c *Ctx, rule string) {
 		}
 		n++
 		ev := ErrResult(sy)
-		k := key(fn, fmt.Sprintf("wal.Sync[%d]#failure-after-apply-not-reported-as-write-error", i+1))
+		// (keyed by the worker, wherever its loop body lives: the finding is about the write path)
+		k := key(c.Fn("", "DB.commitWorker"), fmt.Sprintf("wal.Sync[%d]#failure-after-apply-not-reported-as-write-error", i+1))
 		if ev == nil {
 			c.Fail(rule, k, sy.Pos(), 1, "the result of a wal.Sync after applyRequests is discarded")
 			continue
